@@ -9,11 +9,12 @@ PROP = 'C09'
 LEVEL = 'exploration'
 RULE = ('HIST histories on Joliet levels 1-3 with divergent trees (Joliet-only and ISO-only entries, different nesting), Unicode names '
         '(ASCII, Latin-1, BMP, non-BMP; 1..64 characters), edits, removals, restarts; every written image is decoded from its supplementary '
-        'volume descriptor by isosim/dec_iso.py with UCS-2BE names; a final doomed call with a name of more than 64 characters (or of at most 64 code points that need more than 64 UCS-2 units) must be refused; '
+        'volume descriptor by isosim/dec_iso.py with UCS-2BE names; in 60% of the runs one file with a Joliet name is then modified in place on '
+        'the final image and the Joliet tree decoded again; a final doomed call with a name of more than 64 characters (or of at most 64 code points that need more than 64 UCS-2 units) must be refused; '
         'non-trivial: >= 3 accepted edits, >= 1 write, >= 1 Joliet entry; distinct = model shape fingerprints')
 BUDGET = {'quick': 40, 'thorough': 900}
 PROBES = ['joliet_trees_decoded', 'joliet_only_entry', 'iso_only_entry', 'non_bmp_name', 'name_64_chars', 'shared_extent_checked',
-          'doomed_long_name_refused', 'joliet_dir_multi_sector']
+          'doomed_long_name_refused', 'joliet_dir_multi_sector', 'modified_in_place_then_decoded']
 ASSUMPTIONS = ['isosim/dec_iso.py decodes SVD names as UTF-16BE (Joliet: UCS-2BE; surrogate pairs tolerated)']
 
 
@@ -120,6 +121,44 @@ class C09(H.Oracle):
     prop = PROP
 
     def on_write(self, ctx, disk, wf):
+        check_image(ctx, bytes(disk.data))
+
+    def on_end(self, ctx):
+        """After the last restart: modify one file that has a Joliet name in place (same number of sectors) on the image
+        as it lies on the disk, then decode the Joliet tree again - its record must follow (length, shared extent)."""
+        import io
+        from ..disk import SimFile
+        from ..driver import blob_data
+        m = ctx.model
+        disk = ctx.last_disk
+        if disk is None or m.hybrid or m.eltorito or m.rr_moved:
+            return
+        r = ctx.world.rng('c09modify')
+        cands = []
+        for p, n in m.iter_ns('iso'):
+            if n.kind == 'file' and isinstance(n.blob, int) and not n.noinode and m.blobs[n.blob].length > 0:
+                if any(ns == 'joliet' for ns, _ in m.names_of_blob(n.blob)):
+                    cands.append((p, n))
+        if not cands or r.random() < 0.4:
+            return
+        p, n = r.choice(sorted(cands, key=lambda x: x[0]))
+        old = m.blobs[n.blob].length
+        nsec = (old + 2047) // 2048
+        newlen = r.choice((max(1, (nsec - 1) * 2048 + 1), nsec * 2048, max(1, old - 1), min(nsec * 2048, old + 1)))
+        if (newlen + 2047) // 2048 != nsec:
+            return
+        newblob = 950000 + r.randrange(1000)
+        iso = ctx.d.pm.PyCdlib()
+        try:
+            iso.open_fp(SimFile(disk, 'r+b'))
+            kw = {'rr_name': n.rr} if m.rr and n.rr else {}
+            iso.modify_file_in_place(io.BytesIO(blob_data(M.Blob(newblob, newlen))), newlen, p, **kw)
+            iso.close()
+        except Exception as e:      # whether the call is accepted is C17's business
+            ctx.stats['modify_not_done:%s' % type(e).__name__] += 1
+            return
+        ctx.probes['modified_in_place_then_decoded'] += 1
+        m.apply({'op': 'modify', 'iso': p, 'blob': newblob, 'len': newlen})
         check_image(ctx, bytes(disk.data))
 
     def on_doomed(self, ctx, op, out):
